@@ -9,6 +9,7 @@ import (
 	"math/big"
 	"reflect"
 	"strings"
+	"sync/atomic"
 	"testing"
 
 	"github.com/xelaj/mtproto/internal/encoding/tl"
@@ -122,6 +123,33 @@ func check(v *tlx.Val) (skipped bool, err error) {
 				return fmt.Errorf("%s: reference bytes decode (named type) to a different value at %s", v.Def.Name, d)
 			}
 		}
+		// the same value with its first vector of objects made long (1200 items, as a contact list or a dialog list has):
+		// same serialisation, and the bytes decode to it
+		if wideCount.Add(1)%8 == 0 {
+			if w := widen(v, 1200); w != nil {
+				refW, err1 := tlx.Encode(w)
+				gw, err2 := tlx.Bridge(reg, w)
+				if err1 == nil && err2 == nil {
+					run.Class("feat:vector-of-1200-objects", 1)
+					gotW, err := tl.Marshal(gw.Interface())
+					if err != nil {
+						return fmt.Errorf("%s with a vector of 1200 objects: Marshal: %v", v.Def.Name, err)
+					}
+					if !bytes.Equal(gotW, refW) {
+						return fmt.Errorf("%s with a vector of 1200 objects: serialisation differs from the schema-defined one at byte %d", v.Def.Name, firstDiff(gotW, refW))
+					}
+					if _, registered := reg.ByID[v.Def.ID]; registered && !v.Def.Generic {
+						obj, err := tl.DecodeUnknownObject(refW)
+						if err != nil {
+							return fmt.Errorf("%s with a vector of 1200 objects: DecodeUnknownObject of the reference bytes: %v", v.Def.Name, err)
+						}
+						if d := tlx.Equal(gw, reflect.ValueOf(obj)); d != "" {
+							return fmt.Errorf("%s with a vector of 1200 objects: reference bytes decode to a different value at %s", v.Def.Name, d)
+						}
+					}
+				}
+			}
+		}
 		// the same value again, its bytes fields cut out of one buffer of the caller's (adjacent, with spare capacity over
 		// the following ones): same serialisation, and the caller's buffer is left alone
 		if ga, err := tlx.Bridge(reg, v); err == nil {
@@ -163,6 +191,31 @@ func check(v *tlx.Val) (skipped bool, err error) {
 		return nil
 	})
 	return
+}
+
+var wideCount atomic.Int64
+
+// widen returns a copy of v (top level copied, the rest shared) in which the first non-empty vector of objects has n
+// items (the existing ones repeated); nil if v has no such vector.
+func widen(v *tlx.Val, n int) *tlx.Val {
+	for i, p := range v.Def.Params {
+		items, ok := v.Fields[i].([]any)
+		if !ok || p.Type.Kind != "vector" || len(items) == 0 {
+			continue
+		}
+		if _, isObj := items[0].(*tlx.Val); !isObj {
+			continue
+		}
+		w := *v
+		w.Fields = append([]any{}, v.Fields...)
+		wide := make([]any, 0, n)
+		for j := 0; j < n; j++ {
+			wide = append(wide, items[j%len(items)])
+		}
+		w.Fields[i] = wide
+		return &w
+	}
+	return nil
 }
 
 // shareSubvalues makes the second of two sub-values of the same constructor (two fields, or two items of one vector)
